@@ -205,6 +205,24 @@ def _wrap_tlp(log: list):
     return undo
 
 
+def grid_cases():
+    """bounded-exhaustive stream of the thorough tier: one term over (x eliminated, a kept), every context of one row over
+    (x, b) or two rows over (x, y, b) / (y, b) from a small integer grid (y eliminated too), every singleton tactic order
+    and the default one, both directions"""
+    import itertools
+
+    out = []
+    terms = [{"c": {"x": float(cx), "a": float(ca)}, "k": float(k)} for cx in (-2, -1, 1, 2) for ca in (-1, 1) for k in (0, 2)]
+    rows1 = [{"c": {v: float(c) for v, c in (("x", cx), ("b", cb)) if c != 0}, "k": float(k)} for cx in (-2, -1, 1, 2) for cb in (-1, 0, 1) for k in (-1, 1)]
+    rowsxy = [{"c": {v: float(c) for v, c in (("x", cx), ("y", cy)) if c != 0}, "k": 1.0} for cx in (-1, 1, 2) for cy in (-1, 1)]
+    rowsy = [{"c": {v: float(c) for v, c in (("y", cy), ("b", cb)) if c != 0}, "k": float(k)} for cy in (-1, 1) for cb in (-1, 0, 1) for k in (0, 2)]
+    ctxs = [([r], ["x"]) for r in rows1] + [([r1, r2], ["x", "y"]) for r1 in rowsxy for r2 in rowsy]
+    orders = [[1], [2], [3], [4], [5], [1, 2, 3, 4, 5]]
+    for t, (ctx, xs), order, refine in itertools.product(terms, ctxs, orders, (True, False)):
+        out.append({"kind": "elim", "terms": [t], "ctx": ctx, "xs": xs, "refine": refine, "simplify": False, "order": order, "tag": "grid"})
+    return out
+
+
 def _rename_case(case, old, new):
     def rt(t):
         return {"c": {(new if k == old else k): v for k, v in t["c"].items()}, "k": t["k"]}
@@ -295,6 +313,8 @@ class C04(Check):
                 c = out[-1]
                 c["xs"] = c["xs"] + [rng.choice(c["xs"])]
                 c["tag"] = "xs-dup"
+        if tier == "thorough":
+            out.extend(grid_cases())
         return out
 
     def run_impl(self, case):
@@ -428,6 +448,8 @@ class C04(Check):
             b.append("xs-dup")
         if case.get("tag") == "mutual":
             b.append("mutual")
+        if case.get("tag") == "grid":
+            b.append("grid")
         return b
 
     def nontrivial(self, case, impl):
